@@ -301,6 +301,8 @@ func programs() []stream.Program {
 type Variant struct {
 	Prune bool
 	GMW   bool
+	// Verbose: Params.Verbose and Params.Diagnostics (reports, never results)
+	Verbose bool
 }
 
 // Job is one compilation of the program under comparison.
@@ -362,6 +364,7 @@ func newParams(v Variant) *utils.Params {
 	p.Config = &env.Config{Rand: simrand.Stream("compile")}
 	p.Warn.DisableAll()
 	p.OptPruneGates = v.Prune
+	p.Verbose, p.Diagnostics = v.Verbose, v.Verbose
 	if v.GMW {
 		p.Target = utils.TargetGMW
 	}
@@ -614,7 +617,7 @@ func (w *world) Run(t *rt.Tape, trace bool) *core.Result {
 		src, probe := gen.MPCL(t)
 		p, sizes = stream.Program{Name: "generated", Src: src}, probe
 	}
-	v := Variant{Prune: t.Choose(rt.SGen, 2) == 1, GMW: t.Choose(rt.SGen, 4) == 0}
+	v := Variant{Prune: t.Choose(rt.SGen, 2) == 1, GMW: t.Choose(rt.SGen, 4) == 0, Verbose: t.Choose(rt.SGen, 6) == 0}
 	nj := 2 + t.Choose(rt.SGen, 2)
 	jobs := make([]Job, nj)
 	smp := sample{Program: p.Name, Variant: v}
